@@ -474,7 +474,51 @@ pub fn check_e2e(case: &Case, ctx: &mut CaseCtx) {
                 render_attrs(&s)
             ),
         ),
-        _ => ctx.class("e2e-resolved-equal"),
+        _ => {
+            ctx.class("e2e-resolved-equal");
+            // ---- an update: the same instance registered again with one more property, 200 ms
+            // after the browser last received the old TXT (too young to be flushed): the browser
+            // must end up with the new properties
+            let mut case2 = case.clone();
+            case2.props.push(Prop { key: "zzupd".into(), val: Some(b"2".to_vec()) });
+            let mut quiet = CaseCtx::default();
+            if let Some((mut info2, expect2)) = check_local(&case2, &mut quiet) {
+                info2.set_requires_probe(false);
+                // v1 was announced at 0 and 1 s; run to just after a further copy would be ... no:
+                // re-announce v1 once more by registering it again, then update 200 ms later
+                let (Some((mut info1, _)), now) = (check_local(case, &mut quiet), w.now) else {
+                    w.finish();
+                    return;
+                };
+                info1.set_requires_probe(false);
+                w.daemons[ia].set_now(now);
+                let _ = w.daemons[ia].register(info1);
+                w.advance(200);
+                let now = w.now;
+                w.daemons[ia].set_now(now);
+                if w.daemons[ia].register(info2).is_ok() {
+                    w.advance(3000);
+                    let mut last: Option<Vec<TxtAttr>> = None;
+                    for e in &w.daemons[ib].log {
+                        if let Ev::Svc { ev: ServiceEvent::ServiceResolved(r), .. } = &e.ev {
+                            last = Some(attrs_of(&r.txt_properties));
+                        }
+                    }
+                    ctx.class("e2e-update-checked");
+                    if last.as_ref() != Some(&expect2) {
+                        ctx.violation(
+                            "C16/e2e/update-not-seen",
+                            format!(
+                                "the instance was registered again with [{}] 200 ms after its previous announcement; the browser's last ServiceResolved shows [{}]\n{}",
+                                render_attrs(&expect2),
+                                last.as_ref().map(|l| render_attrs(l)).unwrap_or_default(),
+                                render_log(&w.daemons[ib].log, true, 20)
+                            ),
+                        );
+                    }
+                }
+            }
+        }
     }
     w.finish();
 }
